@@ -230,6 +230,9 @@ func CreateCertificate(template, parent *Certificate, publicKey *sm2.PublicKey, 
 	case SM2WithSM3, SM2WithSHA1, SM2WithSHA256:
 		break
 	default:
+		if _, ok := signer.Public().(*sm2.PublicKey); ok {
+			break // an SM2 signer always receives the raw TBS (the signature hashes ZA||TBS itself)
+		}
 		h := hashFunc.New()
 		h.Write(tbsCertContents)
 		digest = h.Sum(nil)
